@@ -38,12 +38,12 @@ CHECKS = {
             "DESIGN.md §5 C06"),
     "C07": ("exploration",
             "bounded exhaustive enumeration of spellings per structure; engine JSON compared with a reference serialiser",
-            "For every program of a 10k-filter corpus (every operator, index kind, call shape, literal form; all 1-3 operator boolean structures): every alias assignment of the first 8 operator occurrences x whitespace layouts (minimal, single, double, LF, CR/LF mix, each gap alone, Unicode whitespace around) must give equal ASTs, byte-identical JSON equal to the reference document, identical C-API hash and identical std Hash; the variant with every quoted string / regex literal written raw and vice versa is parsed too, and if its AST compares equal everything derived from it (JSON, C hash, Hash) must agree; the neighbours with one literal changed (the case of one letter, an integer by one) must differ in AST and JSON; serialising twice is identical; over the whole set the map JSON -> structure is injective.",
+            "For every program of a 10k-filter corpus (every operator, index kind, call shape, literal form; all 1-3 operator boolean structures): every alias assignment of the first 8 operator occurrences x whitespace layouts (minimal, single, double, LF, CR/LF mix, each gap alone, Unicode whitespace around) must give equal ASTs, byte-identical JSON equal to the reference document, identical C-API hash and identical std Hash; the variant with every quoted string / regex literal written raw and vice versa is parsed too, and if its AST compares equal everything derived from it (JSON, C hash, Hash) must agree; the neighbours with one literal changed (the case of one letter, an integer or an array index by one) must differ in AST and JSON, and an index with 2^32 / 2^33 added must not give the same AST or document; serialising twice is identical; over the whole set the map JSON -> structure is injective.",
             "Reference serialiser harness/src/sem.rs::expr_json; whitespace alphabet as documented (space, CR, LF between tokens).",
             "DESIGN.md §5 C07"),
     "C08": ("model_checking",
             "explicit-state BFS (to fixpoint in the thorough tier) over context operations executed on real contexts, against a reference map",
-            "States: up to two live contexts (on scheme A / its clone / a structurally identical scheme B) x four fields (Int, Bytes, Array(Int), Map(Array(Bytes))) x three values each - 13 203 reachable states in the thorough tier (fixpoint), depth 5 in the quick tier. Transitions: set through a field reference of each of the three schemes and by name with 5-7 values per field (well-typed, wrong primitive, right container / wrong element, wrong depth, wrong container), unknown names, clear, clone_with, new context on the twin scheme, take_with, borrow_with{0-2 inner sets}drop, drop. Every transition runs on real contexts rebuilt from the state; results (previous value / failure) and every observation (all reads, deep type walk, serialisation, equality, five filters and three value expressions of all three schemes on every context: value or scheme mismatch) are compared with the reference. Builders (Array::try_from_iter / try_from_vec, Map::try_from_iter) over 1 458 element-type / element-list combinations; the statically typed builders (TypedArray / TypedMap in 18 nestings up to three levels x 0..2 elements): full nested type, homogeneity at every level, accepted by exactly the field of that type out of 18.",
+            "States: up to two live contexts (on scheme A / its clone / a structurally identical scheme B) x four fields (Int, Bytes, Array(Int), Map(Array(Bytes))) x three values each - 13 203 reachable states in the thorough tier (fixpoint), depth 5 in the quick tier. Transitions: set through a field reference of each of the three schemes and by name with 5-7 values per field (well-typed, wrong primitive, right container / wrong element, wrong depth, wrong container), unknown names, clear, clone_with, new context on the twin scheme, take_with, borrow_with{0-2 inner sets}drop, borrow_with{1-2 inner sets} ended by a panic unwinding through the guard, drop. Every transition runs on real contexts rebuilt from the state; results (previous value / failure) and every observation (all reads, deep type walk, serialisation, equality, five filters and three value expressions of all three schemes on every context: value or scheme mismatch) are compared with the reference. Builders (Array::try_from_iter / try_from_vec, Map::try_from_iter) over 1 458 element-type / element-list combinations; the statically typed builders (TypedArray / TypedMap in 18 nestings up to three levels x 0..2 elements): full nested type, homogeneity at every level, accepted by exactly the field of that type out of 18.",
             "A context's state is what it serialises to plus its scheme; merged states are rebuilt by plain sets (validated at every BFS step).",
             "DESIGN.md §5 C08"),
     "C09": ("exploration",
